@@ -231,3 +231,8 @@ Definition tuple_traits_spec (es : list elem) : list bool :=
 Definition refwrap_ops_spec (a b : Z) : Z * Z * Z := (a + b + 1, a + 1, b).
 Definition fref_ops_spec (v : Z) : list Z := [v + 1; v + 20; v + 20; v + 20; v + 20; v + 1].
 Definition notfn_static_spec (v : Z) : bool := 0 <=? v.
+
+Definition void_ret_spec (x : Z) : Z := 3 * x + 3.
+(* [pairs.spec] make_pair: unwrap_ref_decay_t: reference_wrapper<X> -> X&, everything else decays *)
+Definition make_pair_member_spec (wrapped : option bool) : ty :=
+  match wrapped with Some false => mkty false RL | Some true => mkty true RL | None => mkty false RNone end.
